@@ -282,7 +282,16 @@ impl fmt::Display for CompoundCommand {
         use CompoundCommand::*;
         match self {
             Grouping(list) => write!(f, "{{ {list:#} }}"),
-            Subshell { body, .. } => write!(f, "({body})"),
+            Subshell { body, .. } => {
+                // Separate the parentheses of directly nested subshells so
+                // that `((` is not taken for an arithmetic command.
+                let body = body.to_string();
+                if body.starts_with('(') {
+                    write!(f, "( {body})")
+                } else {
+                    write!(f, "({body})")
+                }
+            }
             For { name, values, body } => {
                 write!(f, "for {name}")?;
                 if let Some(values) = values {
